@@ -17,13 +17,15 @@ Step(e) ==
     [] e.op = "pw" -> verdict' = "ok" /\ written' = written + e.m /\ UNCHANGED <<connected, claimed, delivered>>
     [] e.op = "backend_read" -> IF e.ep # e.inEp THEN Fail("ReadsFromIn") ELSE IF e.len > e.n THEN Fail("ReadAtMost") ELSE IF e.tmo # e.expTmo THEN Fail("TimeoutMs") ELSE verdict' = "ok" /\ Keep
     [] e.op = "backend_write" -> IF e.ep # e.outEp THEN Fail("WritesToOut") ELSE IF e.tmo # e.expTmo THEN Fail("TimeoutMs") ELSE IF ~e.dataSame THEN Fail("WritesToOut") ELSE verdict' = "ok" /\ Keep
-    [] e.op = "read" -> IF e.k > e.n THEN Fail("ReadAtMost")
+    [] e.op = "read" -> IF ~connected THEN Fail("UseAfterClose")            \* a read that succeeds on a transport that is not connected
+                        ELSE IF e.k > e.n THEN Fail("ReadAtMost")
                         ELSE IF e.first # delivered + 1 \/ ~e.contiguous \/ delivered + e.k > written THEN Fail("InOrder")
                         ELSE verdict' = "ok" /\ delivered' = delivered + e.k /\ UNCHANGED <<connected, claimed, written>>
     [] e.op = "raised" -> IF e.cls # e.expected THEN Fail(IF e.closed THEN "UseAfterClose" ELSE "ErrorsMapped")
                           ELSE IF ~e.legit THEN Fail("RaisesOnlyForACause")      \* connected, not closed, the backend reported nothing and (for a read) data was there
                           ELSE verdict' = "ok" /\ Keep
-    [] e.op = "wrote" -> IF e.k # e.accepted THEN Fail("WriteCount")
+    [] e.op = "wrote" -> IF ~connected THEN Fail("UseAfterClose")
+                         ELSE IF e.k # e.accepted THEN Fail("WriteCount")
                          ELSE IF ~e.prefixOk THEN Fail("WritesAPrefix")        \* what reached the OUT endpoint is exactly the first k bytes offered, in order
                          ELSE verdict' = "ok" /\ Keep
     [] e.op = "error" -> Fail(e.clause)
